@@ -152,13 +152,15 @@ class Index:
         else:
             match = None
             if until:
-                start = self.prefix + until + b"\x00"
+                # just past every key of that second: the bounds are inclusive,
+                # as they are for the other indexes
+                start = self.prefix + until + b"\x01"
             else:
                 start = self.prefix + b"\xff"
             cursor.set_range(start)
             stop = self.prefix
             if since:
-                stop += since + b"\xff"
+                stop += since
             # print(f'{start} -> {stop}')
 
         def iterator(match):
